@@ -47,6 +47,7 @@ Items == {
   Stmt("Pq", TRUE, <<[t |-> "par", p |-> "p2x"]>>, <<Kw("k", [t |-> "par", p |-> "p0_bs"])>>, <<I(0)>>, "none"),
   [t |-> "arr", ty |-> "float", x |-> "p0", shape |-> <<>>, rows |-> << <<F(1, 2), F(3, 2)>> >>],
   Stmt("Xp", TRUE, <<Var("p0")>>, <<Kw("phi", Var("p0"))>>, <<I(1)>>, "none"),
+  Stmt("Sx", TRUE, <<[t |-> "str", s |-> "1,2"], [t |-> "str", s |-> "# x | 1"]>>, <<Kw("l", LstE(<<[t |-> "str", s |-> "10,000"], I(3)>>))>>, <<I(0)>>, "none"),
   Stmt("Pa", TRUE, <<[t |-> "par", p |-> "al"], [t |-> "bin", op |-> "*", l |-> Var("al"), r |-> I(2)]>>, <<Kw("k", Var("n"))>>, <<I(0)>>, "none"),     \* {al} next to the variable al
   Stmt("Pr", TRUE, <<[t |-> "par", p |-> "p3"], [t |-> "par", p |-> "alpha"]>>, <<>>, <<I(1)>>, "none"),
   Stmt("MeasureFock", TRUE, <<>>, <<Kw("select", LstE(<<I(0), I(2)>>)), Kw("dark_counts", LstE(<<[t |-> "bool", b |-> TRUE], F(1, 2)>>)), Kw("x", LstE(<<I(7)>>))>>, <<I(0), I(1)>>, "sq"),
